@@ -231,7 +231,15 @@ fn worker(id: &str, tier: Tier) -> i32 {
         machinery: vec![],
     };
     let mut total = Acc::default();
+    // debugging aid: run only the sweeps whose name contains VERIF_ONLY_SWEEP
+    let only = std::env::var("VERIF_ONLY_SWEEP").ok();
     for sw in &sweeps {
+        if let Some(o) = &only {
+            if !sw.name().contains(o.as_str()) {
+                out.machinery.push(format!("sweep {} skipped by VERIF_ONLY_SWEEP (debugging run, not a verdict)", sw.name()));
+                continue;
+            }
+        }
         let t0 = Instant::now();
         let acc = engine::run_sweep(sw.as_ref(), &progress_path(id));
         out.per_sweep.push(json!({
